@@ -65,6 +65,18 @@ def programs(tier):
         "allof": {"Base": {"type": "object", "required": ["id"], "properties": {"id": {"type": "integer"}, "when": {"type": "string", "format": "date-time"}}},
                   "Child": {"allOf": [ref("Base"), {"type": "object", "properties": {"kind": {"type": "string", "enum": ["a", "b"]}, "amount": {"type": "number"}}}]}},
     }
+    # one model used as the body of several operations under different media types, every order of the paths / media types
+    form = {"type": "object", "required": ["title"], "properties": {"title": {"type": "string"}, "when": {"type": "string", "format": "date"}, "n": {"oneOf": [{"type": "integer"}, {"type": "null"}]}}}
+    mref = ref("FormModel")
+    ok204 = {"204": {"description": "n"}}
+    medias = ["multipart/form-data", "application/json", "application/x-www-form-urlencoded"]
+    import itertools
+    for k in (2, 3):
+        for sel in itertools.permutations(medias, k):
+            paths = {f"/p{i}": {"post": {"operationId": f"send{i}", "requestBody": {"required": True, "content": {m: {"schema": mref}}}, "responses": ok204}} for i, m in enumerate(sel)}
+            out.append((f"s:shared-body:{'>'.join(sel)}", "shape/shared-body-model/separate-operations", gen.base_doc({"FormModel": form}, paths=paths), {}, {"kind": "shape"}))
+            one = {"/p": {"post": {"operationId": "sendAny", "requestBody": {"required": True, "content": {m: {"schema": mref} for m in sel}}, "responses": ok204}}}
+            out.append((f"s:shared-body-one-op:{'>'.join(sel)}", "shape/shared-body-model/one-operation", gen.base_doc({"FormModel": form}, paths=one), {}, {"kind": "shape"}))
     for name, comps in shapes.items():
         for lit in (False, True):
             out.append((f"s:{name}{'|lit' if lit else ''}", f"shape/{name}" + ("/lit" if lit else ""), gen.base_doc(comps), {"literal_enums": lit}, {"kind": "shape"}))
